@@ -178,10 +178,14 @@ structure InvS (g : Graph) (lim : Option Nat) (s : St) : Prop where
   semLe : ∀ l, lim = some l → sem s ≤ l + 1
   /-- the coordinator ends only on cancellation or after it has received every vertex -/
   cDeadWhy : s.cAlive = false → s.cancelled = true ∨ ∀ v ∈ g.verts, v ∈ s.received
+  /-- … and when it ends on cancellation the caller has already left the extremities loop (`<-spawned`), so nobody
+  can start a worker any more and the workers alive then fit the limit -/
+  cDeadBound : s.cAlive = false → (∀ v ∈ g.verts, v ∈ s.received) ∨ (s.m = none ∧ ∀ l, lim = some l → s.workers.length ≤ l)
 
 theorem init_invS (g : Graph) (lim : Option Nat) : InvS g lim (init g) := by
-  refine ⟨?_, ?_⟩
+  refine ⟨?_, ?_, ?_⟩
   · intro l _; simp [sem, init]
+  · intro h; simp [init] at h
   · intro h; simp [init] at h
 
 theorem setW_length (ws : List (V × WPc)) (v : V) (pc : WPc) : (setW ws v pc).length = ws.length := by
@@ -196,7 +200,7 @@ theorem step_sem {g : Graph} {lim : Option Nat} {s s' : St} {l : Label} (h : Ste
     have := List.length_filter_le (fun (p : V × WPc) => decide (p.1 ≠ v)) s.workers
     omega
   | cRecvLast ha _ _ _ => left; simp [sem, ha]
-  | cCtxDone ha _ _ => left; simp [sem, ha]
+  | cCtxDone ha _ _ _ => left; simp [sem, ha]
   | _ => left; simp [sem, setW_length]
 
 /-- a duplicate-free list inside `verts` of the same length contains every vertex -/
@@ -222,9 +226,36 @@ theorem step_received_sub {g : Graph} {lim : Option Nat} {s s' : St} {l : Label}
     (hu : u ∈ s.received) : u ∈ s'.received := by
   cases h <;> simp [hu]
 
+theorem step_m_none {g : Graph} {lim : Option Nat} {s s' : St} {l : Label} (h : Step g lim s l s')
+    (hm : s.m = none) : s'.m = none := by
+  have sched : ∀ {w : Who} {y : Sched} (x : Option Sched) (s1 : St), getSched s w = some y → s1.m = s.m →
+      (putSched s1 w x).m = none := by
+    intro w y x s1 hs h1
+    cases w with
+    | M => simp [getSched, hm] at hs
+    | C => simp [putSched, h1, hm]
+  cases h with
+  | schedNext hs _ => exact sched _ s hs rfl
+  | schedEnd hs => exact sched _ s hs rfl
+  | readyT hs _ => exact sched _ s hs rfl
+  | readyF hs _ => exact sched _ s hs rfl
+  | enterT hs _ => exact sched _ _ hs rfl
+  | enterF hs _ => exact sched _ s hs rfl
+  | spawn hs _ => exact sched _ _ hs rfl
+  | _ => exact hm
+
+theorem step_workers_len {g : Graph} {lim : Option Nat} {s s' : St} {l : Label} (h : Step g lim s l s') :
+    s'.workers.length ≤ s.workers.length ∨ ∃ w y, getSched s w = some y := by
+  cases h with
+  | spawn hs _ => exact .inr ⟨_, _, hs⟩
+  | @wExit v e _ =>
+    left
+    exact List.length_filter_le (fun (p : V × WPc) => decide (p.1 ≠ v)) s.workers
+  | _ => left; simp [setW_length]
+
 theorem invS_step {g : Graph} {lim : Option Nat} {s s' : St} {l : Label} (hg : GraphOK g)
     (h : Step g lim s l s') (hA : InvA s) (hB : InvB g s) (hS : InvS g lim s) : InvS g lim s' := by
-  refine ⟨?_, ?_⟩
+  refine ⟨?_, ?_, ?_⟩
   · intro n hn
     rcases step_sem h with h1 | ⟨hfree, h1⟩
     · have := hS.semLe n hn; omega
@@ -249,7 +280,41 @@ theorem invS_step {g : Graph} {lim : Option Nat} {s s' : St} {l : Label} (hg : G
           exact (List.nodup_append.mp this).2.1
         refine all_of_length hnd (fun u hu => hB'.recvSub u (.inr hu)) ?_
         simp only [List.length_cons]; omega
-      | cCtxDone _ _ hcan => exact .inl hcan
+      | cCtxDone _ _ hcan _ => exact .inl hcan
+      | _ => simp_all
+  · intro ha'
+    cases ha : s.cAlive with
+    | false =>
+      rcases hS.cDeadBound ha with hall | ⟨hm, hlen⟩
+      · exact .inl (fun v hv => step_received_sub h v (hall v hv))
+      · right
+        refine ⟨step_m_none h hm, ?_⟩
+        intro n hn
+        rcases step_workers_len h with h1 | ⟨w, y, hw⟩
+        · have := hlen n hn; omega
+        · cases w with
+          | M => simp [getSched, hm] at hw
+          | C => simp [getSched, ha] at hw
+    | true =>
+      cases h with
+      | @cRecvLast v rest _ hc hch hex =>
+        left
+        have ⟨he, h1⟩ := hB.expectEq ha
+        have hA' := invA_step (.cRecvLast (g := g) (lim := lim) ha hc hch hex) hA
+        have hB' := invB_step hg (.cRecvLast (g := g) (lim := lim) ha hc hch hex) hA hB
+        have hnd : (v :: s.received).Nodup := by
+          have := hA'.chRecvNodup
+          exact (List.nodup_append.mp this).2.1
+        refine all_of_length hnd (fun u hu => hB'.recvSub u (.inr hu)) ?_
+        simp only [List.length_cons]; omega
+      | cCtxDone _ _ _ hm =>
+        right
+        refine ⟨hm, ?_⟩
+        intro n hn
+        have := hS.semLe n hn
+        simp only [sem, ha, if_true] at this
+        show s.workers.length ≤ n
+        omega
       | _ => simp_all
 
 /-! ### everything together -/
